@@ -24,12 +24,18 @@ def gen_plan(rng, tier, config, opts):
                             'W_HASH %d' % rng.below(1000), 'W_MAP m%d' % rng.below(1000), 'W_ECDSA', 'W_SSS', 'W_PSI', 'W_ECIES'])
         cv = curve if curve != 'BN_P256' else 'NIST_P256'
         lines.append('# fresh-process')
+        # where the threads are aligned: before their first selection (whose own first calls - it reads the curve
+        # constants from text - then happen under the fine schedule), after it, or not at all (fine slices from the
+        # very first block of core_init)
+        where = rng.choice(['before', 'before', 'after', 'none'])
         for t in range(k):
-            steps = ['RESEED ' + rng.bytes(8).hex(), 'EPSET ' + cv, 'BARRIER', first, first, 'W_STR %d' % rng.below(1000), 'CLRERR', 'PROBE 1']
+            steps = ['RESEED ' + rng.bytes(8).hex()] + (['BARRIER'] if where == 'before' else []) + ['EPSET ' + cv] + \
+                    (['BARRIER'] if where == 'after' else []) + [first, first, 'W_STR %d' % rng.below(1000), 'CLRERR', 'PROBE 1']
             lines += ['THREAD %d %s' % (t, s) for s in steps]
         # initialisation and selection cost millions of blocks: the threads run up to the barrier one after the other, the
         # lag and the fine slices apply from there
-        lines.append('SEG 0 999999999')
+        if where != 'none':
+            lines.append('SEG 0 999999999')
         lines.append('SEG 0 %d' % rng.choice([1, 5, 20, 60, 150, 200, 300, 600, rng.randint(1, 1000)]))
         lines.append('RR %d %d %d' % (rng.choice([100000, 250000]), rng.choice([1, 1, 2, 3, 6]), rng.below(1 << 30)))
         return '\n'.join(lines) + '\n'
@@ -43,10 +49,12 @@ def gen_plan(rng, tier, config, opts):
                              'W_MAP m%d' % rng.below(1000), 'W_MUL ' + rng.bytes(20).hex(), 'W_STR %d' % rng.below(1000)]) for _ in range(rng.randint(2, 6))]
         if rng.chance(0.3):
             items.insert(0, 'W_STR %d' % rng.below(1000))      # text conversion first: tables built on first use
+        aligned = rng.chance(0.6)      # else: fine slices from the first block of core_init (they cover initialisation and selection)
         for t in range(k):
-            steps = ['RESEED ' + rng.bytes(8).hex(), 'EPSET ' + (curve if curve != 'BN_P256' else 'NIST_P256'), 'BARRIER'] + items + ['CLRERR', 'PROBE 1']
+            steps = ['RESEED ' + rng.bytes(8).hex(), 'EPSET ' + (curve if curve != 'BN_P256' else 'NIST_P256')] + (['BARRIER'] if aligned else []) + items + ['CLRERR', 'PROBE 1']
             lines += ['THREAD %d %s' % (t, s) for s in steps]
-        lines.append('SEG 0 999999999')      # up to the barrier one after the other (initialisation costs millions of blocks)
+        if aligned:
+            lines.append('SEG 0 999999999')      # up to the barrier one after the other (initialisation costs millions of blocks)
         lines.append('SEG 0 %d' % rng.randint(1, 2000))
         lines.append('RR %d %d %d' % (rng.choice([100000, 250000, 500000]), rng.choice([1, 2, 3, 6]), rng.below(1 << 30)))
         return '\n'.join(lines) + '\n'
